@@ -18,7 +18,12 @@ Three object families share one case (each op names its object by prefix):
   `mw.find|rels|cols|areas <id> [type…]` → sorted IDs | `crash` | `hang` | `skipped`
 `ow.*`   an `ingest.MutableOverlayWorld` over a basic world
   `ow.base [<feature>…]` → the features of the built base world (the driver resynchronises on it)
-  `ow.add <feature>` → `ok`|`err`|`skipped`; `ow.tag <id>` → `ok`|`err`|`skipped`; `ow.snap` → `ok`
+  `ow.add <feature>` → `ok`|`err`|`skipped`; `ow.snap` → `ok`
+  `ow.tag <id>`    AddTag of a searchable tag (`#amenity`): a feature that lives only in the base is copied up
+  `ow.untag <id>`  RemoveTag of the searchable tag `#t` (carried by features written `…;t=x`): copied up when the
+                   base-only feature has the tag
+  `ow.tagp <id>` / `ow.untagp <id>`  AddTag / RemoveTag of a plain key on a non-point feature: never a copy
+                   → `ok` | `err` (no such feature) | `skipped`
   `ow.find|rels|cols|areas <id> [type…]`
 
 The property predicate: every query answer = the referrers of the ID in the CURRENT feature set
@@ -38,6 +43,17 @@ def parseFeature (s0 : String) : Option Feature :=
     let refs ← parseIdsComma b
     some ⟨id, refs⟩
   | _ => none
+
+/-- does the feature token carry `;t=…` (the searchable tag `#t`)? -/
+def hasT (tok : String) : Bool := ((tok.splitOn ";").drop 1).any (·.startsWith "t=")
+
+def idOfToken (tok : String) : Option Id := (parseFeature tok).map (·.id)
+
+/-- the tagged IDs among feature tokens; a later token of the same ID replaces an earlier one -/
+def taggedOf (toks : List String) : List Id :=
+  toks.foldl (fun acc tok => match idOfToken tok with
+    | some i => if hasT tok then (if acc.contains i then acc else acc ++ [i]) else acc.filter (· != i)
+    | none => acc) []
 
 def renderFeature (f : Feature) : String := renderId f.id ++ "=" ++ ",".intercalate (f.refs.map renderId)
 
@@ -77,6 +93,8 @@ structure St where
   mwPoisoned : Bool := false
   ow : Overlay := ⟨[], [], []⟩
   owPoisoned : Bool := false
+  /-- the features of the overlay world that currently carry the searchable tag `#t` -/
+  tagged : List Id := []
 
 /-- spec answer: referrers in `fs`, restricted to existing features of the requested types -/
 def specAnswer (fs : List Feature) (id : Id) (typed : List Nat) : Option (List Id) :=
@@ -169,9 +187,9 @@ def step (st : St) (op impl : String) : St × Verdict :=
       else if impl == "err" then ({ st with mwPoisoned := true }, .ok)
       else (st, .propfail "no-answer")
   | ["ow.base", _] | "ow.base" :: _ =>
-    match (do let ws ← parseBracket impl; ws.mapM parseFeature) with
-    | some fs => ({ st with ow := ⟨fs, [], []⟩, owPoisoned := false }, .ok)
-    | none => (st, .bad)
+    match (do let ws ← parseBracket impl; ws.mapM parseFeature), parseBracket (sdrop op 8) with
+    | some fs, some toks => ({ st with ow := ⟨fs, [], []⟩, owPoisoned := false, tagged := taggedOf toks }, .ok)
+    | _, _ => (st, .bad)
   | ["ow.add", fs] =>
     match parseFeature fs with
     | none => (st, .bad)
@@ -179,10 +197,37 @@ def step (st : St) (op impl : String) : St × Verdict :=
       if st.owPoisoned then (st, if impl == "skipped" then .ok else .diff "skipped")
       else if impl == "ok" then
         match st.ow.add f with
-        | some o' => ({ st with ow := o' }, .ok)
+        | some o' =>
+          let tg := if hasT fs then (if st.tagged.contains f.id then st.tagged else st.tagged ++ [f.id])
+                    else st.tagged.filter (· != f.id)
+          ({ st with ow := o', tagged := tg }, .ok)
         | none => (st, .diff "panic")
       else if impl == "err" then ({ st with owPoisoned := true }, .ok)
       else (st, .propfail "no-answer")
+  | ["ow.untag", ids] =>
+    match parseId ids with
+    | none => (st, .bad)
+    | some id =>
+      if st.owPoisoned then (st, if impl == "skipped" then .ok else .diff "skipped")
+      else if impl == "ok" then
+        -- a base-only feature that carries the tag is copied into the overlay (its referrers are not)
+        let o' := if st.tagged.contains id then st.ow.copyUp id else st.ow
+        ({ st with ow := o', tagged := st.tagged.filter (· != id) }, if st.ow.has id then .ok else .diff "err")
+      else if impl == "err" then (st, if st.ow.has id then .diff "ok" else .ok)
+      else (st, .propfail "no-answer")
+  | [opk, ids] =>
+    if opk == "ow.tagp" || opk == "ow.untagp" then
+      match parseId ids with
+      | none => (st, .bad)
+      | some id =>
+        if st.owPoisoned then (st, if impl == "skipped" then .ok else .diff "skipped")
+        else if impl == "ok" then (st, if st.ow.has id then .ok else .diff "err")
+        else if impl == "err" then (st, if st.ow.has id then .diff "ok" else .ok)
+        else (st, .propfail "no-answer")
+    else step2 st op impl
+  | _ => step2 st op impl
+where step2 (st : St) (op impl : String) : St × Verdict :=
+  match words op with
   | ["ow.tag", ids] =>
     match parseId ids with
     | none => (st, .bad)
